@@ -37,7 +37,14 @@ PROP = dict(
         "step_respects_obs heap_read step (C31_transact); satisfiable by a non-trivial interpreter: Example ReuseExamples.step_respects_obs_satisfiable",
         "sets_pctx_only_with_panic exec (C31_panic_context_consumed); satisfiable: Example ReuseExamples.sets_pctx_only_with_panic_satisfiable",
     ],
-    rule=("cases = (history of 1-5 earlier transactions on ONE Interpreter and ONE Transactor, target transaction): histories mix grammar scenarios "
+    rule=("DIRECTED pairs first: histories and targets that differ in every per-transaction derived field — 'reader' scripts that log all registers, "
+          "the whole initialised memory [0,$ssp), GM selectors, GTF of the last input, BAL, and finally `gm GetOwner` + the 32 bytes it points to — with "
+          "1 owner-bearing input (owner pointer set) vs 2-3 (ambiguous: OwnerIsUnknown), with/without a contract input before the coin (pointer elsewhere, "
+          "input/output index maps), different assets, amounts, gas limits: single-owner history -> ambiguous target, the converse, pointer-moves, grammar "
+          "targets after readers and readers after grammar histories; oracle additionally compares owner_ptr, context, input_contracts, "
+          "input_contracts_index_to_output_index, frames, panic_context, initial_balances right after initialisation (new vs used instance; from the Debug "
+          "image) and owner_ptr against the specification's rule re-implemented in the harness; Coq: init_script must also reproduce owner_ptr and "
+          "input_contracts from the dirty pre-state (owner_ptr = Some garbage). THEN cases = (history of 1-5 earlier transactions on ONE Interpreter and ONE Transactor, target transaction): histories mix grammar scenarios "
           "with their contracts (warm storage-slot caches), garbage programs, scripts that leave a dirty heap of up to ~1 MB and a dirty stack of up to "
           "~120 KB (0xFF words every 512 bytes), ending by return / revert / panic / out of gas, and the target itself; target = vmtrace grammar "
           "scenario (0-3 contracts; default, unit and randomised schedules); the target runs on a new interpreter over a copy of the storage the history "
